@@ -194,8 +194,13 @@ def diagOK : Op K (X → K) → Bool
   | .diag _ _ t _ => decide (t < 4)
   | _ => true
 
-/-- diagonal transformations in range and not a block-diagonal operator -/
-def okC (o : Op K (X → K)) : Bool := diagOK o && !isBlock o
+def isChainOp : Op K (X → K) → Bool | .chain _ => true | _ => false
+
+/-- summands of a SumOperator: diagonal transformations in range, not a block-diagonal operator (chains are fine) -/
+def okS (o : Op K (X → K)) : Bool := diagOK o && !isBlock o
+
+/-- diagonal transformations in range, not a block-diagonal operator, not a (nested) chain -/
+def okC (o : Op K (X → K)) : Bool := diagOK o && !isBlock o && !isChainOp o
 
 theorem isDiag_cases (o : Op K (X → K)) (h : isDiag o = true) : ∃ dm d t dt, o = Op.diag dm d t dt := by
   cases o <;> simp [isDiag] at h
